@@ -130,6 +130,14 @@ class VRag(V):
         self.ref = ref
 
 
+class VAssoc(V):
+    """A dict with integer keys and 1-D array values in insertion order: keys (a list value) + values (a list of arrays), same count;
+    the keys are pairwise distinct (obligation wherever the dict is built or extended)."""
+    def __init__(self, keys, vals):
+        self.keys = keys      # VList of int
+        self.vals = vals      # VRag
+
+
 class VRagItems(V):
     """dict.items() of an int-keyed dict of lists modelled as a list of arrays: pairs (key, row)"""
     def __init__(self, rag):
@@ -234,6 +242,8 @@ def parse_type(s):
             return ('blocks', args()[0])
         if name == 'rag':
             return ('rag', args()[0])
+        if name == 'assoc':
+            return ('assoc', args()[0])
         if name in ('mat', 'flatmat', 'cube'):
             return (name, args()[0])
         if name == 'tuple':
